@@ -34,7 +34,7 @@ func c20(c *Ctx) {
 	r.Technique = "constant and slice-bound extraction of the target selection; must-pass-through (cut) checks of the candidate gates; writer/reader agreement of the radius cache key and per-payload-type coverage of ping and pong paths; outcome-independence check (no exit that depends on the ENR refresh result before the radius is recorded)"
 	r.Explanation = "Decides: (R1) gossip draws its candidates from the 32 table nodes nearest the content id and offers to candidates[:4] plus at most min(4, rest) of the shuffled rest (so at most 8); (R2) a node becomes a candidate only when its radius was found in the cache, the in-range helper applied to (that node's id, that decoded radius, the content id) is true, and - when a source is given - its id differs from the source; the cached radius is decoded little-endian (wire value; shared with C06.R1); (R3) every request enqueued carries the full list built from all key/content pairs; (R4) radius bookkeeping: the radius cache is written only by the one update helper (with the radius taken from the payload) and by manual AddEnr (maximum); the cache key is the node id's string form at every reader and writer; for every ping-extension payload type that carries a data radius both the ping path and the pong path dispatch to a processor that feeds that radius to the update helper; on neither path does an exit depend on the outcome of the ENR refresh that precedes the dispatch (a failed refresh must not drop the reported radius); (R5) pong builders answer with the store's current radius. Permit handling is C16. Not decided: randomness quality, 'most recently reported' across concurrent interleavings of pings and pongs."
 	r.Assumptions = []string{"fastcache is a faithful map", "findNodesCloseToContent returns nodes ordered by distance (C08.R3)"}
-	r.Floor("R1.selection-bounds", 4)
+	r.Floor("R1.selection-bounds", 5)
 	r.Floor("R2.candidate-gates", 3)
 	r.Floor("R3.whole-batch", 1)
 	r.Floor("R4.cache-writers", 2)
@@ -84,6 +84,10 @@ func c20(c *Ctx) {
 	} else {
 		k, _ := core.ConstInt(candCall.Call.Args[len(candCall.Call.Args)-1])
 		r.Check(k == 32, "R1.selection-bounds", gname+" nearest-count", p.Pos(candCall.Pos()), "candidates = 32 nearest table nodes", fmt.Sprintf("candidates are drawn from the %d nearest nodes, the property states 32", k))
+		if cf := core.StaticCalleeFn(candCall); cf != nil {
+			w := unsortedReturn(cf)
+			r.Check(w == nil, "R1.selection-bounds", gname+" candidates-ordered", p.Pos(cf.Pos()), "every candidate list passed the sort by distance to the content id (its first four are the closest)", "the candidate list can be returned unsorted, so candidates[:4] are not the closest: "+p.PathString(w))
+		}
 	}
 	// final list: append(gossip[:4], farther[:min(4,len)]...) where farther = gossip[4:]
 	okFinal, detail := false, "final target list is not candidates[:4] + at most 4 of the rest"
